@@ -1,5 +1,5 @@
 (* C11 model runner.  One case per line:
-   <id> <cfg6bits> <preserve01> <wd> <cwd> <nprep> {d <path> | f <path> <tag>}* <npush>
+   <id> <cfg5bits> <preserve01> <wd> <cwd> <nprep> {d <path> | f <path> <tag> | l <path> <target>}* <npush>
         { B <title> <tag> | U <title> <nent> { r <name> <tag> <mode> | d <name> <mode> | h <name> <tgt> | s <name> <tgt> | o <name> }* }*
    strings are hex ("-" = empty); paths are absolute slash-separated strings; modes decimal.
    Pre-populated directories have mode 0755, files 0644.
@@ -18,7 +18,7 @@ let run_case id toks =
   let next () = match !toks with x :: r -> toks := r; x | [] -> failwith "short line" in
   let bits = next () in
   let bit i = bits.[i] = '1' in
-  let g = { fixH = bit 0; fixC = bit 1; fixD = bit 2; fixA = bit 3; fixS = bit 4; fixR = bit 5 } in
+  let g = { fixH = bit 0; fixA = bit 1; fixR = bit 2; fixN = bit 3; fixW = bit 4 } in
   let pres = (next () = "1") in
   let wd = path_of_string (string_of_hex (next ())) in
   let cwd = path_of_string (string_of_hex (next ())) in
@@ -27,6 +27,9 @@ let run_case id toks =
   for _ = 1 to nprep do
     match next () with
     | "d" -> let p = path_of_string (string_of_hex (next ())) in ents := (p, NDir) :: !ents
+    | "l" -> let p = path_of_string (string_of_hex (next ())) in
+             let t = str_of_hex (next ()) in
+             ents := (p, sym_node t) :: !ents
     | "f" -> let p = path_of_string (string_of_hex (next ())) in
              let tag = int_of_string (next ()) in
              ents := (p, NFile (nat_of_int !ino)) :: !ents;
